@@ -6,7 +6,7 @@ CONSTANTS
   FFSeq <- DefFFSeq
   CFSeq <- DefCFSeq
   Ops <- AllOps
-  Modes <- ModesAll
+  Modes <- ModesDesign
   NT = 4
   NS = 2
   MaxV = 4
